@@ -120,6 +120,7 @@ QMODEL = xmlgen.simple_model(decl=BASE_DECL.replace("chan c;", "broadcast chan c
 
 
 def run(rep, tier, seed):
+    rep.level = "fault_enumeration"
     rng = random.Random(seed * 1000003 + 11)
     quick = tier == "quick"
     items = []        # (context, form, is_write, model)
